@@ -5,10 +5,23 @@ VARIABLES l, bad
 vars == <<l, bad>>
 
 B01(b) == IF b THEN 1 ELSE 0
+D2C(v) == <<48 + ((v \div 10) % 10), 48 + (v % 10)>>
 AlignedInput(tag, f) == ValidFields(f) /\ IsAligned(tag, f)
 
 \* Each operator answers: is this logged call a behaviour the specification allows?
-OkCtor(e) == InDomainCtor(e.a) => (e.ub = 0 /\ e.r = Ctor(e.tag, e.a))
+\* operator<<: "Y-MM-DDTHH:MM:SS" cut at the alignment, the year in plain decimal; the destination stream's width,
+\* fill and left adjustment pad the WHOLE text and the width is consumed; no other stream state shows.
+Text(tag, f) == WDec(f[1])
+                \o (IF tag <= TagMonth  THEN <<45>> \o D2C(f[2]) ELSE <<>>)
+                \o (IF tag <= TagDay    THEN <<45>> \o D2C(f[3]) ELSE <<>>)
+                \o (IF tag <= TagHour   THEN <<84>> \o D2C(f[4]) ELSE <<>>)
+                \o (IF tag <= TagMinute THEN <<58>> \o D2C(f[5]) ELSE <<>>)
+                \o (IF tag <= TagSecond THEN <<58>> \o D2C(f[6]) ELSE <<>>)
+Fill(n, c) == [i \in 1..(IF n > 0 THEN n ELSE 0) |-> c]
+Streamed(e) == LET t == Text(e.tag, e.r)  pad == Fill(e.sw - Len(t), e.sf) IN
+               /\ e.s = (IF e.sl = 1 THEN t \o pad ELSE pad \o t)
+               /\ e.swa = 0
+OkCtor(e) == InDomainCtor(e.a) => (e.ub = 0 /\ e.r = Ctor(e.tag, e.a) /\ Streamed(e))
 OkAdd(e, n) == /\ AlignedInput(e.tag, e.a)
                /\ InDomainAdd(e.tag, e.a, n) => (e.ub = 0 /\ e.r = Add(e.tag, e.a, n))
 OkDiff(e) == /\ AlignedInput(e.tag, e.a) /\ AlignedInput(e.tag, e.b)
